@@ -93,8 +93,8 @@ def rule_r1(ctx, rid="C03.R1"):
             v = norm(node.value)
             if v == "self.version":
                 names["version"] = t
-            elif "'CONNECTION'" in v and ".get(" in v:
-                names["connection"] = t
+            elif "'CONNECTION'" in v and (".get(" in v or isinstance(node.value, ast.Subscript)):
+                names["connection"] = t  # headers.get('CONNECTION', '') or headers['CONNECTION'] (inside try/except KeyError)
             elif isinstance(node.value, ast.Constant) and node.value.value is None and "content_length" in t:
                 names["clh"] = t
     if names["version"] is None and any(isinstance(x, ast.Compare) and dotted(x.left) == "self.version" for x in ast.walk(f.node)):
@@ -701,7 +701,13 @@ def rule_r13(ctx, rid="C03.R13"):
             ctx.r.violation(rid, key_of(f, None, "declared-length-replaced"), "`%s` is not guarded by `self.content_length is None` (guards on the length: %s): a declared Content-Length - 0 for instance - is replaced after the head announced it, the body bytes follow a head that says there are none and run into the next response" % (norm(n.ast), loose or "none"), f.loc(n.ast))
 
 
-RULES = [rule_r1, rule_r2, rule_r3, rule_r4, rule_r5, rule_r6, rule_r7, rule_r8, rule_error_route, rule_buffers, rule_r11, rule_r12, rule_r13]
+def rule_r14(ctx):
+    """Shared with C09.R9: a response that could not be delimited as announced (OSError while sending, swallowed in Task.service) always closes the connection."""
+    from . import c09
+    c09.rule_r9(ctx, rid="C03.R14")
+
+
+RULES = [rule_r1, rule_r2, rule_r3, rule_r4, rule_r5, rule_r6, rule_r7, rule_r8, rule_error_route, rule_buffers, rule_r11, rule_r12, rule_r13, rule_r14]
 
 from ..selftest import M, T, V  # noqa: E402
 
